@@ -432,12 +432,19 @@ def make_elem(env, kind, rng):
             return TwoRateTokenBucket(env, int(rate), rng.choice([1500, 3000]), pir=int(rate * 2), pbs=rng.choice([1500, 4000]))
         return TwoRateTokenBucket(env, int(rate), rng.choice([1500, 3000]))
     w = {f: rng.choice([1, 2, 3]) for f in FLOWS}
-    if kind == 'sp': return SP(env, rate, w)
     if kind == 'rr': return RR(env, rate, list(FLOWS))
     if kind == 'wrr': return WRR(env, rate, w)
-    if kind == 'drr': return DRR(env, rate, w)
-    if kind == 'wfq': return WFQ(env, rate, w)
-    if kind == 'vc': return VC(env, rate, {f: rng.choice([0.5, 1.0, 2.0]) for f in FLOWS})
+    # several flows mapped onto one class (seeded C08-m15: a sub-queue filed under the flow id but served under the class id holds its
+    # packets for ever): the class ids are flow ids too, so the full tables stay valid tables
+    kw = {}
+    if rng.random() < 0.4:
+        ncls = rng.choice([1, 2])
+        table = {f: FLOWS[(i + 1) % ncls] for i, f in enumerate(FLOWS)}
+        kw = {'flow2class': (lambda fid, table=table: table[fid])}
+    if kind == 'sp': return SP(env, rate, w, **kw)
+    if kind == 'drr': return DRR(env, rate, w, **kw)
+    if kind == 'wfq': return WFQ(env, rate, w, **kw)
+    if kind == 'vc': return VC(env, rate, {f: rng.choice([0.5, 1.0, 2.0]) for f in FLOWS}, **kw)
     raise ValueError(kind)
 
 
